@@ -32,6 +32,8 @@ def solver_part(tier):
         return _p.untranslatable("C16", e)
     res = []
     asked, not_asked = pmodel.q_empty_selfloop(T["states"], res)
+    from kit import berp
+    pmodel.q_lookaheads(T["lookaheads"], res, berp.build())
     return _p.finish("C16", res, t0, {"states_asking_empty": asked, "states_not_asking_empty (description / doc-string content)": not_asked})
 
 
@@ -58,11 +60,13 @@ def conditions(tier):
     seen = set()
     i = 0
     for key, seq in specparse.prefixes():
-        if tuple(seq) in seen or key[1] == "tag-pending":
+        if tuple(seq) in seen:
             continue
         seen.add(tuple(seq))
         i += 1
         for ins in (EMPTY, COMMENT):
+            if key[1] == "tag-pending" and q and i % 4:
+                continue
             if q and i % 16:
                 cs.append(Cond("harness.pdrv", "insertion_neutral1", {"prefix": seq, "ins": ins, "next": STEP if i % 2 else SCENARIO}, T=300,
                                label="pdrv.insertion1[ins=%d,prefix=%s]" % (ins, ",".join(map(str, seq)))))
